@@ -84,6 +84,96 @@ theorem matches_sound_wf (r : Re) (hwf : WF r) (hsz : (emit false r 0).1.length 
   obtain ⟨s0, _, h2, h3, _, hmm⟩ := g2 hm
   exact ⟨s0, 0 + m.toNat, h2, h3, hmm⟩
 
+/-- the abstract-machine half, for any way of reading the input: a length reported by the VM on `code(r') ++ [MATCH]` is
+    the end of a shape match in matched bytes -/
+theorem exec_irm (e : Env) (D : Dir e) (r' : Re) (hwf : WF r') (hsz : (emit false r' 0).1.length < 32000)
+    (hcode : e.code = ((emit false r' 0).1 ++ [0xAD]).toArray) (hentry : e.entry = 0) (m : Int) (c : List Nat)
+    (h : exec e = .done m c) :
+    (∀ L, L ∈ c → ∃ s0, s0 ≤ L ∧ D.ok L ∧ (e.fl.scan = false → s0 = 0) ∧ IrM D.L (lower r') s0 L) ∧
+    (0 ≤ m → ∃ s0, s0 ≤ m.toNat ∧ D.ok m.toNat ∧ (e.fl.scan = false → s0 = 0) ∧ IrM D.L (lower r') s0 m.toNat) := by
+  rw [emit_len hwf] at hsz
+  have hsub : Sub e.code 0 ((emit false r' 0).1 ++ [0xAD]) := by rw [hcode]; exact sub_whole _
+  obtain ⟨h1, h2⟩ := sub_append hsub
+  have hseg : Seg e.code (lower r') 0 (clen (lower r')) := by
+    have := seg_of_emit hwf 0 e.code 0 hsz h1
+    simpa using this
+  have hmatch : u8 e.code (clen (lower r')) = OP_MATCH := by
+    have := h2 0 (by simp)
+    rw [emit_len hwf] at this
+    simp at this
+    rw [this]; rfl
+  obtain ⟨g1, g2⟩ := exec_sound e m c h
+  constructor
+  · intro L hL
+    obtain ⟨f, md, hr, hm⟩ := g1 L hL
+    exact match_sound e D hseg hmatch hentry hr hm
+  · intro hm0
+    obtain ⟨f, md, hr, hm⟩ := g2 hm0
+    exact match_sound e D hseg hmatch hentry hr hm
+
+/-- FORWARD code, one- or two-byte (wide) characters: every reported length ends a match of the expression that begins at
+    the start position (in scan mode: at a later position) -/
+theorem vm_sound_fwd (r : Re) (hwf : WF r) (hsz : (emit false r 0).1.length < 32000) (buf : Bytes) (start : Nat) (hst : start ≤ buf.size)
+    (fl : VmFlags) (hb : fl.backwards = false) (hsw : fl.scan = true → fl.wide = false) (fuel : Nat) (m : Int) (c : List Nat)
+    (h : exec { code := (emitCode false r).toArray, entry := 0, buf := buf, start := start, fl := fl, syncFuel := fuel } = .done m c) :
+    (∀ L, L ∈ c → ∃ s0, s0 ≤ L ∧ start + L ≤ buf.size ∧ (fl.scan = false → s0 = 0) ∧
+      Re.Matches (specFlagsG fl) buf r (start + s0) (start + L)) ∧
+    (0 ≤ m → ∃ s0, s0 ≤ m.toNat ∧ start + m.toNat ≤ buf.size ∧ (fl.scan = false → s0 = 0) ∧
+      Re.Matches (specFlagsG fl) buf r (start + s0) (start + m.toNat)) := by
+  obtain ⟨e, he⟩ : ∃ e : Env, e = { code := (emitCode false r).toArray, entry := 0, buf := buf, start := start, fl := fl, syncFuel := fuel } := ⟨_, rfl⟩
+  rw [← he] at h
+  have hrun : RunOK e := by subst he; exact ⟨hst, hsw⟩
+  have hb' : e.fl.backwards = false := by subst he; exact hb
+  obtain ⟨g1, g2⟩ := exec_irm e (fwdDir e hb' hrun) r hwf hsz (by subst he; rfl) (by subst he; rfl) m c h
+  have conv : ∀ L s0, (fwdDir e hb' hrun).ok L → IrM (fwdDir e hb' hrun).L (lower r) s0 L →
+      start + L ≤ buf.size ∧ Re.Matches (specFlagsG fl) buf r (start + s0) (start + L) := by
+    intro L s0 hok hm
+    have k := (lower_sem hwf _ _).1 (irm_fwdG (specFlagsG e.fl) e.buf e.start hm)
+    have hok2 : e.start + L ≤ e.buf.size := hok.2
+    subst he
+    exact ⟨hok2, k⟩
+  have hsc : e.fl.scan = fl.scan := by subst he; rfl
+  constructor
+  · intro L hL
+    obtain ⟨s0, k1, k2, k3, k4⟩ := g1 L hL
+    obtain ⟨c1, c2⟩ := conv L s0 k2 k4
+    exact ⟨s0, k1, c1, fun hh => k3 (by rw [hsc]; exact hh), c2⟩
+  · intro hm0
+    obtain ⟨s0, k1, k2, k3, k4⟩ := g2 hm0
+    obtain ⟨c1, c2⟩ := conv _ s0 k2 k4
+    exact ⟨s0, k1, c1, fun hh => k3 (by rw [hsc]; exact hh), c2⟩
+
+/-- BACKWARD code (EMIT_BACKWARDS, run with RE_FLAGS_BACKWARDS), one- or two-byte characters: every reported length `L` is
+    the length of a match of the expression that ENDS at the start position -/
+theorem vm_sound_bwd (r : Re) (hwf : WF r) (hsz : (emit true r 0).1.length < 32000) (buf : Bytes) (start : Nat) (hst : start ≤ buf.size)
+    (fl : VmFlags) (hb : fl.backwards = true) (hsc : fl.scan = false) (fuel : Nat) (m : Int) (c : List Nat)
+    (h : exec { code := (emitCode true r).toArray, entry := 0, buf := buf, start := start, fl := fl, syncFuel := fuel } = .done m c) :
+    (∀ L, L ∈ c → L ≤ start ∧ Re.Matches (specFlagsG fl) buf r (start - L) start) ∧
+    (0 ≤ m → m.toNat ≤ start ∧ Re.Matches (specFlagsG fl) buf r (start - m.toNat) start) := by
+  obtain ⟨e, he⟩ : ∃ e : Env, e = { code := (emitCode true r).toArray, entry := 0, buf := buf, start := start, fl := fl, syncFuel := fuel } := ⟨_, rfl⟩
+  rw [← he] at h
+  have hrun : RunOK e := by subst he; exact ⟨hst, fun hh => by rw [hsc] at hh; simp at hh⟩
+  have hb' : e.fl.backwards = true := by subst he; exact hb
+  have hcode : e.code = ((emit false (rev r) 0).1 ++ [0xAD]).toArray := by subst he; simp only [emitCode, emit_rev]
+  rw [emit_rev] at hsz
+  obtain ⟨g1, g2⟩ := exec_irm e (bwdDir e hb' hrun) (rev r) (rev_wf hwf) hsz hcode (by subst he; rfl) m c h
+  have hsc' : e.fl.scan = false := by subst he; exact hsc
+  have conv : ∀ L s0, s0 = 0 → (bwdDir e hb' hrun).ok L → IrM (bwdDir e hb' hrun).L (lower (rev r)) s0 L →
+      L ≤ start ∧ Re.Matches (specFlagsG fl) buf r (start - L) start := by
+    intro L s0 h0 hok hm
+    subst h0
+    have k := lowerB_sem hwf _ _ (irm_bwdG (specFlagsG e.fl) e.buf e.start hm)
+    have hok2 : L ≤ e.start := hok.2
+    subst he
+    exact ⟨hok2, by simpa using k⟩
+  constructor
+  · intro L hL
+    obtain ⟨s0, _, k2, k3, k4⟩ := g1 L hL
+    exact conv L s0 (k3 hsc') k2 k4
+  · intro hm0
+    obtain ⟨s0, _, k2, k3, k4⟩ := g2 hm0
+    exact conv _ s0 (k3 hsc') k2 k4
+
 /-- the ASTs `hex_grammar.y` builds for (a piece of) a hex string: bytes, `??`, nibble masks, `~` negations, jumps
     `[n]` / `[n-m]` (lazy RE_NODE_RANGE_ANY, m below 65536 — every jump that is not split off as a chain link is at most
     YR_STRING_CHAINING_THRESHOLD = 200), concatenation, alternatives nested to any depth -/
